@@ -33,5 +33,5 @@ Example C36_rewrite_runs :
              (RMul RI (RAdd (RExp (RMul RI (RRef [0%nat]))) (RExp (RNeg (RMul RI (RRef [0%nat]))))))) /\
   trig_to_sqrt (EF1 TC_Sin (EF1 TC_ACos vx)) = RSqrt (RSub (r_int 1) (RPow (RRef [0%nat; 0%nat]) (r_int 2))) /\
   conjugate (EMul (NCplx 1 2 3 4) [(vx, e_int 2)]) =
-    Ok (RDatnMul (NCplx 1 2 (-3) 4) [(RRef [1%nat; 1%nat], RRawConj (RRef [1%nat; 0%nat]))]).
+    Ok (RMul (r_int 1) (RDatnMul (NCplx 1 2 (-3) 4) [(RRef [1%nat; 1%nat], RRawConj (RRef [1%nat; 0%nat]))])).
 Proof. vm_compute. repeat split; reflexivity. Qed.
